@@ -101,7 +101,7 @@ type Outcome struct {
 	Diverged  string // replay divergence (infrastructure error)
 	MainDone  bool
 	Parked    []string // threads still alive (parked) when the execution ended
-	Conflicts int // number of events that touched an object previously touched by another thread
+	Conflicts int      // number of events that touched an object previously touched by another thread
 }
 
 type sched struct {
@@ -486,7 +486,10 @@ func runOnce(cfg runConfig, body func()) Outcome {
 	main.wake <- struct{}{}
 	to := cfg.timeout
 	if to == 0 {
-		to = 60 * time.Second
+		// guards against a thread blocked in a primitive the scheduler does not control. Generous on
+		// purpose: executions take milliseconds, but a loaded machine (16 explorer processes, page
+		// cache pressure) has stalled one for more than a minute
+		to = 10 * time.Minute
 	}
 	select {
 	case <-s.finished:
